@@ -334,6 +334,9 @@ class Exec:
                 k = fresh("k", I)
                 st.assume(z3.ForAll([k], z3.Implies(z3.And(0 <= k, k < n), z3.And(arr[k] >= 0, arr[k] < st.alloc))))
             return VList(arr, n, ek)
+        if t == "json":
+            j = z3.Int(name)
+            return VJson(j)
         if t == "obj:registry?":
             tr, isn = z3.Bool(name + "_truthy"), z3.Bool(name + "_isnone")
             st.assume(z3.Implies(isn, z3.Not(tr)))
@@ -615,15 +618,12 @@ class Exec:
         if m is None:
             raise Unsupported(f"statement {type(stmt).__name__} at line {stmt.lineno}")
         self.cur_line = stmt.lineno
-        if self.c.asserts and self.call_depth == 0:
-            src_ = ast.unparse(stmt)
-            for anchor, cl in self.c.asserts.items():
-                if src_.startswith(anchor):
-                    self.asserts_seen = getattr(self, "asserts_seen", set()) | {anchor}
-                    for nm, e in cl.items():
-                        z = self.spec_bool(e, st)
-                        self.oblige(st, f"assert/{anchor}", nm, z, stmt.lineno)
-                        st.assume(z)
+        if self.c.labels and self.call_depth == 0:
+            src_l = ast.unparse(stmt)
+            for lab, anchor in self.c.labels.items():
+                if src_l.startswith(anchor):
+                    st.labels = dict(st.labels)
+                    st.labels[lab] = st.clone()
         if self.c.hints and self.call_depth == 0:
             src = None
             for anchor, hs in self.c.hints.items():
@@ -636,6 +636,15 @@ class Exec:
                             st.assume(self.lemma_instance(hnt, st))
                         except UndefinedName:
                             pass  # the hint mentions a local that does not exist on this path: no instance (fewer assumptions)
+        if self.c.asserts and self.call_depth == 0:
+            src_ = ast.unparse(stmt)
+            for anchor, cl in self.c.asserts.items():
+                if src_.startswith(anchor):
+                    self.asserts_seen = getattr(self, "asserts_seen", set()) | {anchor}
+                    for nm, e in cl.items():
+                        z = self.spec_bool(e, st)
+                        self.oblige(st, f"assert/{anchor}", nm, z, stmt.lineno)
+                        st.assume(z)
         return m(stmt, st)
 
     def stmt_Global(self, stmt, st):
@@ -683,6 +692,13 @@ class Exec:
                     out.append((s, f, v))
             return out
         v = self.eval(stmt.value, st)
+        if self.c.labels and self.call_depth == 0:
+            src_l = ast.unparse(stmt)
+            for lab, anchor in self.c.labels.items():
+                if anchor.startswith("=") and src_l.startswith(anchor[1:]):
+                    # `=<prefix>`: the state after the right-hand side of this assignment has been evaluated, before the store
+                    st.labels = dict(st.labels)
+                    st.labels[lab] = st.clone()
         for t in stmt.targets:
             self.assign(t, v, st)
         r = self.flush(st)
@@ -1065,7 +1081,8 @@ class Exec:
         from .contract import LEMMAS
 
         name, _, rest = hint.partition(":")
-        name = name.strip()
+        name, _, at_label = name.strip().partition("@")
+        name, at_label = name.strip(), at_label.strip()
         if name not in LEMMAS:
             raise AnchorMismatch(f"hint refers to unknown lemma {name}")
         lm = LEMMAS[name]
@@ -1098,6 +1115,13 @@ class Exec:
             view.old = view
             n_src = len(src.path)
             view.store = {k: self.spec_val(e, src, extra) for k, e in binds.items()}
+            if lm.two_heaps:
+                if at_label not in st.labels:
+                    raise AnchorMismatch(f"two-heap lemma {name} needs `{name}@<label>` with a label of the contract (got {at_label!r})")
+                vo = view.clone()
+                vo.heap = dict(st.labels[at_label].heap)
+                vo.old = vo
+                view.old = vo
             view.path = list(src.path)
             view.facts_seen |= src.facts_seen
             body = self.spec_bool(lm.goal, view)
@@ -1421,6 +1445,8 @@ class Exec:
                 return VPy(d, f"dict-literal@L{getattr(node, 'lineno', 0)}")
             except Exception:  # noqa: BLE001
                 pass
+        if all(isinstance(k, ast.Constant) and isinstance(k.value, str) for k in node.keys):
+            return BT.json_make(self, {k.value: self.eval(v, st) for k, v in zip(node.keys, node.values)}, st)
         raise Unsupported("dict display")
 
     def expr_JoinedStr(self, node, st):
@@ -1826,6 +1852,11 @@ class Exec:
             return e
         if isinstance(base, VTuple) and isinstance(idx, VInt) and is_int_const(idx.z):
             return base.items[int_const(idx.z)]
+        if isinstance(base, VJson):
+            key = z3.simplify(idx.z) if isinstance(idx, VStr) else None
+            if key is None or not z3.is_string_value(key):
+                raise Unsupported("JSON object subscripted with a non-constant key")
+            return BT.json_get(self, base, key.as_string(), st)
         if isinstance(base, VPy) and isinstance(base.obj, dict):
             items = list(base.obj.items())
             hit = [self.equal(idx, self.from_py(k), st) for k, _ in items]
@@ -2363,13 +2394,14 @@ class Exec:
     def apply_spec(self, name: str, args, st: State) -> V:
         from .specfun import spec_function
 
-        f, ret = spec_function(self, name, st)
+        f, ret, heap_fields = spec_function(self, name, st)
         zargs = []
         for a in args:
             if isinstance(a, VList):
                 zargs.extend([a.arr, a.n])
             else:
                 zargs.append(a.z)
+        zargs.extend(st.heap[fld] for fld in heap_fields)  # the heap of the state the specification is evaluated in
         z = f(*zargs)
         if isinstance(ret, tuple):
             raise Unsupported("tuple-valued spec function")
